@@ -12,7 +12,7 @@ ID = "C04"
 LEVEL = "model_checking"
 RULE = ("trees {group of 2, group of 3 with a hard link, two groups, two --isolate roots with two files each} x target file f in {retained member, dropped member, second file of a retained / dropped isolate root} x "
         "mutation in {rewrite same length, rewrite other length, append, truncate, delete, delete+recreate same bytes, "
-        "delete+recreate other bytes, replace by directory, by dangling symlink, by symlink to a fresh file, by symlink to an old file of the same length, touch} x "
+        "delete+recreate other bytes, replace by directory, by dangling symlink, by symlink to a fresh file, by symlink to an old file of the same length, replace by a named pipe, touch} x "
         "position: the external mutator is interleaved at EVERY event k (file-system read calls and clock reads) of the "
         "recorded `group -t 1` run from the first access to f until process exit (quick: one position per phase), plus "
         "'between group and dedupe' (the pair tree also with both commands running in time zones UTC+9, UTC-8, UTC+5:30, and with the dedupe command running in another zone than `group`: +9 -> 0, 0 -> -8, -8 -> +9, +5:30 -> +4:30); then each dedupe op {remove, link, link --soft, dedupe, move} and {remove, link, move} x {-n 1, --rf-over 1, --priority newest, --no-lock, --keep-name <matches nothing>} (quick: remove, link, remove -n 1, link --priority newest) "
@@ -39,7 +39,7 @@ TREE_OPTS = {
 TREES["isolate"] = [{"p": "r1/a/f1", "k": "file", "c": ["base", 3000, 1]}, {"p": "r1/b/f2", "k": "file", "c": ["base", 3000, 1]},
                     {"p": "r2/c/f3", "k": "file", "c": ["base", 3000, 1]}, {"p": "r2/c/f4", "k": "file", "c": ["base", 3000, 1]}]
 MUTATIONS = ["rewrite_same_len", "rewrite_other_len", "append", "truncate", "delete", "recreate_same", "recreate_other",
-             "to_directory", "to_dangling_symlink", "to_symlink_fresh", "to_symlink_old", "touch"]
+             "to_directory", "to_dangling_symlink", "to_symlink_fresh", "to_symlink_old", "to_fifo", "touch"]
 OPS = ["remove", "link", "softlink", "dedupe", "move"]
 # options of the dedupe command that must not switch the staleness guard off (op|option set)
 OPTSETS = {"": [], "n1": ["-n", "1"], "rfover1": ["--rf-over", "1"], "newest": ["--priority", "newest"],
@@ -132,6 +132,10 @@ def mutate(path, m, scratch):
             os.utime(old, (1_000_000_000, 1_000_000_000))
         os.unlink(p)
         os.symlink(old, p)
+    elif m == "to_fifo":
+        # turned into a special file (a named pipe nobody writes to)
+        os.unlink(p)
+        os.mkfifo(p)
     elif m == "touch":
         os.utime(p, None)
     time.sleep(0.025)
@@ -174,6 +178,11 @@ def evaluate(case):
         else:
             positions = [("pause", k) for k in range(first + 1, K)] + [("between", None)]
             ops = OPS_T
+        if case["mutation"] == "to_fifo":
+            # a file that becomes a named pipe WHILE `group` is reading makes `group` block in open() until somebody
+            # writes to the pipe: nothing is removed, so the statement is not concerned (noted in DESIGN.md); the
+            # dedupe commands, however, must cope with a pipe at a reported path
+            positions = [("between", None)]
         if case.get("only"):
             positions = [tuple(case["only"][0])]
             ops = [case["only"][1]]
